@@ -102,6 +102,44 @@ func (f *Fn) Lit(lit *ast.FuncLit, label string) *Fn {
 	return g
 }
 
+// Region prepares a statement list of f (e.g. the body of one case clause) as
+// an analysable unit that shares f's parameters and results.
+func (f *Fn) Region(stmts []ast.Stmt, label string) *Fn {
+	body := &ast.BlockStmt{List: stmts}
+	if len(stmts) > 0 {
+		body.Lbrace = stmts[0].Pos()
+		body.Rbrace = stmts[len(stmts)-1].End()
+	}
+	g := &Fn{P: f.P, Pkg: f.Pkg, Info: f.Info, Src: f.Src, Name: f.Name + "#" + label, Body: body, Type: f.Type, Recv: f.Recv, Params: f.Params, Result: f.Result, Outer: f.Outer}
+	g.build()
+	return g
+}
+
+// CaseBody returns the statements of the case clause of f whose expression
+// list contains an expression with the given canonical form.
+func (f *Fn) CaseBody(canon string) []ast.Stmt {
+	var out []ast.Stmt
+	found := false
+	ast.Inspect(f.Body, func(n ast.Node) bool {
+		if found {
+			return false
+		}
+		cc, ok := n.(*ast.CaseClause)
+		if !ok {
+			return true
+		}
+		for _, e := range cc.List {
+			if f.Canon(e) == canon {
+				out = cc.Body
+				found = true
+				return false
+			}
+		}
+		return true
+	})
+	return out
+}
+
 func (f *Fn) fillParams() {
 	collect := func(fl *ast.FieldList) []*types.Var {
 		var out []*types.Var
